@@ -10,7 +10,7 @@ from ..runner import Failure, Leg, Result
 
 PROP = "C02"
 KNOWN_RNP = f"{PROP}/rnp/numbins>=6"
-DIFF_ONLY = ("ckk", "snp", "rnp")
+DIFF_ONLY = ("ckk", "snp", "rnp", "cbldm")
 
 
 def spec_of(case):
@@ -153,6 +153,38 @@ def deep_cases(draw):
     return case
 
 
+@st.composite
+def two_way_large_cases(draw):
+    """Two bins, 11-16 items: beyond the exhaustive envelope, with ground truth from a subset-sum DP."""
+    alg = draw(st.sampled_from(["ckk", "snp", "rnp", "cg", "cg", "dp", "cbldm-free"]))
+    n = draw(st.integers(11, 14 if alg == "cg" else 16))
+    profile = draw(st.sampled_from(["uniform-200", "uniform-200", "uniform-1000", "near-equal-large", "planted"]))
+    seed = draw(st.integers(0, 2 ** 40))
+    if profile == "uniform-200" or alg == "dp":
+        profile, values = "uniform-200", S.splitmix(seed, n, 1, 200)
+    elif profile == "uniform-1000":
+        values = S.splitmix(seed, n, 1, 1000)
+    elif profile == "near-equal-large":
+        base = draw(st.sampled_from([10 ** 6, 2 ** 24]))
+        values = [base * m + d for m, d in zip(S.splitmix(seed, n, 1, 4), S.splitmix(seed + 1, n, 0, 50))]
+    else:
+        values = list(draw(S.planted_values(2, n, max_sum=500)))[:n]
+    case = {"alg": alg, "values": values, "numbins": 2, "pres": "list", "nseed": 0, "profile": "2way-" + profile}
+    if alg == "cbldm-free":
+        case["alg"] = "cbldm"
+    if alg == "cg":
+        case["opts"] = {"objective": draw(st.sampled_from(S.CG_OBJECTIVES)), "switches": draw(st.sampled_from([[1, 1, 0, 1], [1, 1, 1, 1], [0, 1, 0, 1]]))}
+    elif alg == "dp":
+        case["opts"] = {"objective": draw(S.objective_specs(2))}
+    return case
+
+
+def valid_two_way(case):
+    v = case.get("values")
+    return (case.get("numbins") == 2 and isinstance(v, list) and 1 <= len(v) <= 16 and all(isinstance(x, int) and x >= 0 for x in v)
+            and sum(v) < 2 ** 53 and case.get("alg") in ("ckk", "snp", "rnp", "cg", "dp", "cbldm"))
+
+
 def valid_deep(case):
     if not cases.valid_partition_case(dict(case, alg="greedy")):
         return False
@@ -182,6 +214,10 @@ def legs(tier):
             "hypothesis: snp / rnp / ckk / complete greedy at the largest sizes the oracle covers (10 items x 3 bins, 9 x 4, 8 x 5) on "
             "evenly spread values (1..40, 1..200, 1..10^6, near-equal large values); same oracle and non-triviality rule",
             strategy=deep_cases(), n_quick=1600, n_thorough=40000, valid=valid_deep, floor=0.3),
+        Leg("two-way-large", evaluate,
+            "hypothesis: two bins, 11-16 items (complete greedy <= 14), values 1..200 / 1..1000 / near-equal large / planted: beyond the "
+            "exhaustive envelope, with ground truth from a subset-sum DP (bitset); ckk, snp, rnp, complete greedy, dp and cbldm (default bound); "
+            "same non-triviality rule", strategy=two_way_large_cases(), n_quick=700, n_thorough=20000, valid=valid_two_way, floor=0.3),
         Leg("known-rnp>=6", evaluate, "rnp with 6-7 bins: the region of the recorded known finding",
             strategy=rnp_known_region(), n_quick=40, n_thorough=400, shards=1, valid=cases.valid_partition_case),
         fuzz_target.fuzz_leg(PROP, 60000, evaluate, valid_deep),
